@@ -165,3 +165,113 @@ Lemma C03_fact_accessor_sites :
   /\ Generated.AccessorSites.resolve_best_path_calls = resolve_best_path_calls_classified
   /\ Generated.AccessorSites.morpheme_accessors = morpheme_accessors_classified.
 Proof. vm_compute. repeat split; reflexivity. Qed.
+
+(* ==================================================================================================================
+   The two machine-level models of lattice.rs agree (Proofs/LatticePM.v): on round_wf input the panicking-index model
+   returns POk exactly with the values of Model/LatticeM.v (the costs every insert returns, the EOS predecessor and
+   cost), and stops at the i32 addition exactly when LatticeM does.  mconn = the matrix as a total function. *)
+From SudachiVerif Require Import Proofs.LatticePM.
+
+Theorem C03_lattice_models_agree :
+  forall (dbg ovf : bool) (nl nr : N) (data : list Z), matrix_ok nl nr data = true ->
+  forall (L0 : plat) (len : nat) (ns : list node), round_wf nl nr data (len, ns) = true ->
+    exists L1, preset L0 len = POk L1 /\
+    match minsert_all ovf (mconn nl nr data) (mreset len) ns with
+    | LatticeM.Ok (LM, cs) =>
+        exists LP, pinsert_all dbg ovf nl nr data L1 ns = POk (LP, cs) /\ LatticePM.Rel LP LM /\ LatticePProofs.Inv nl len nil LP /\
+          match mconnect_eos ovf (mconn nl nr data) LM with
+          | LatticeM.Ok e => exists LP', pconnect_eos dbg ovf nl nr data LP = POk (LP', is_some e)
+                                /\ (forall r i c, e = Some (r, i, c) -> p_eos LP' = Some ((r, i), c))
+          | LatticeM.Panic => pconnect_eos dbg ovf nl nr data LP = PPanic S_add_overflow
+          end
+    | LatticeM.Panic => pinsert_all dbg ovf nl nr data L1 ns = PPanic S_add_overflow
+    end.
+Proof. exact models_agree. Qed.
+Print Assumptions C03_lattice_models_agree.
+
+(* ONE statement for the lattice: under the cost bound of C03_no_overflow_if_bounded (every matrix entry within K1, every
+   word cost within K2, (len + 1) * (K1 + K2) < i32::MAX per analysis) nothing panics, in the debug profile (debug
+   assertions, overflow checks) as well as in release: no index, no unwrap, no assertion, no i32 overflow, no read
+   outside the matrix; through any number of analyses on one Lattice object from any earlier state *)
+Theorem C03_lattice_never_panics_debug :
+  forall (dbg ovf : bool) (nl nr : N) (data : list Z), matrix_ok nl nr data = true ->
+  forall K1 K2 : Z, (0 <= K1)%Z -> (0 <= K2)%Z -> (forall z, In z data -> (- K1 <= z <= K1)%Z) ->
+  forall (rs : list (nat * list node)) (L0 : plat),
+    forallb (round_wf nl nr data) rs = true -> Forall (round_bounded K1 K2) rs ->
+    exists r, prounds dbg ovf nl nr data L0 rs = POk r.
+Proof. exact prounds_never_panic. Qed.
+Print Assumptions C03_lattice_never_panics_debug.
+
+(* ==================================================================================================================
+   Further site-level statements (Proofs/SitesConcat.v, SitesSplitTrie.v, SitesBuffer.v). *)
+From SudachiVerif Require Import Proofs.SitesConcat Proofs.SitesSplitTrie Proofs.SitesBuffer Proofs.MoreSitesClassified.
+From SudachiVerif Require Generated.MoreSites Generated.TrieBits.
+
+(* node.rs concat_nodes / concat_oov_nodes with every index expression, the usize subtraction end_bytes - beg_bytes and
+   the u16 addition of head word lengths written out (pconcat): for a proper range inside the path whose nodes form a
+   byte chain of a text of at most 65535 bytes and carry head word lengths not above their byte spans, nothing panics and
+   the result is the merged path of builder G's model *)
+Theorem C03_concat_no_panic :
+  forall (hwl : Rewrite.node -> N) (ovf : bool) (merge : list Rewrite.node -> Rewrite.node) (p : list Rewrite.node) (b e : nat),
+    (b < e)%nat -> (e <= List.length p)%nat -> bchain (Rewrite.slice p b e) ->
+    (forall n, In n (Rewrite.slice p b e) -> (hwl n <= N.of_nat (Rewrite.be n - Rewrite.bb n))%N) ->
+    (forall n, In n (Rewrite.slice p b e) -> (N.of_nat (Rewrite.be n) <= 65535)%N) ->
+    pconcat hwl ovf merge p b e = COk (firstn b p ++ merge (Rewrite.slice p b e) :: skipn e p)%list.
+Proof. exact pconcat_ok. Qed.
+Print Assumptions C03_concat_no_panic.
+
+Theorem C03_concat_agrees_with_rewrite_model :
+  forall hwl ovf p b e nf q, pconcat_nodes hwl ovf p b e nf = COk q -> Rewrite.concat_nodes p b e nf = Rewrite.Ok q.
+Proof. exact pconcat_nodes_agrees. Qed.
+Print Assumptions C03_concat_agrees_with_rewrite_model.
+
+(* NodeSplitIterator::next (Model/Split.v, None = the index mod_b2c[byte_end] out of range): with head_word_length =
+   key length for every unit, a panic implies that the declared units do not spell the node's text (units_wf fails);
+   and such declarations do panic: the recorded finding c06_split_surface_mismatch *)
+Theorem C03_split_panics_only_on_ill_formed_units :
+  (forall hw key t n us,
+     (forall u, In u us -> hw u = Split.blen (key u)) -> us <> nil ->
+     Split.split_node hw t n us = None -> ~ SplitProofs.units_wf key t n us)
+  /\ (exists hw key t n us,
+        (forall u, In u us -> hw u = Split.blen (key u)) /\ Split.split_node hw t n us = None
+        /\ ~ SplitProofs.units_wf key t n us).
+Proof.
+  split; [exact split_panics_only_on_ill_formed_units|].
+  exists ex_hw, ex_key, (97 :: 98 :: nil)%N, (Split.mkNode 0 2 0 2 7), (3 :: 2 :: nil)%N.
+  destruct split_ill_formed_units_panic as (A & B & C). auto.
+Qed.
+Print Assumptions C03_split_panics_only_on_ill_formed_units.
+
+(* trie.rs: on a certified double array no read (get_unchecked behind debug_assert!(index < len)) is out of bounds, for
+   every byte text and offset.  The loader does NOT certify: see the finding c03_damaged_dictionary *)
+Theorem C03_trie_reader_no_index_panic :
+  forall a fuel ks text off, Trie.keys_of a fuel = Some ks -> TrieProofs.bytes text ->
+    exists r, Trie.traverse_opt a text off = Some r.
+Proof. exact trie_reader_no_index_panic. Qed.
+Print Assumptions C03_trie_reader_no_index_panic.
+
+Fact C03_fact_wid_group_limit : (Generated.TrieBits.WID_MAX_GROUP <= 255)%N.
+Proof. vm_compute. intro H; discriminate H. Qed.
+
+Theorem C03_wid_table_reader_no_index_panic :
+  forall gs tbl offs, WordIdTable.encode_groups gs = Some (tbl, offs) -> (forall g, In g gs -> Forall WordIdTableProofs.u32 g) ->
+    forall o, In o offs -> exists g, WordIdTable.entries tbl o = Some g.
+Proof. exact (wid_table_reader_no_index_panic C03_fact_wid_group_limit). Qed.
+Print Assumptions C03_wid_table_reader_no_index_panic.
+
+(* edit.rs: resolve_edits / add_replace on an edits_ok batch over a reachable buffer never panic at a slice or an index *)
+Theorem C03_resolve_edits_no_index_panic :
+  forall o s es, wf_text o = true -> Reach the_cfg o s -> edits_ok (cur s) es = true ->
+    resolve the_cfg (cur s) (m2o s) es 0 (Z.of_nat (List.length (cur s))) <> RPanic.
+Proof. exact (commit_no_index_panic the_cfg (proj1 C03_fact_buffer_cfg)). Qed.
+Print Assumptions C03_resolve_edits_no_index_panic.
+
+(* build(): every index written into mod_bow is below its length, and the offsets of char_indices() increase *)
+Theorem C03_build_writes_in_range :
+  (forall t p, In p (c2b_scan t 0) -> (p < List.length t)%nat)
+  /\ (forall t i a b l1 l2, c2b_scan t i = (l1 ++ a :: b :: l2)%list -> (a < b)%nat).
+Proof. exact (conj build_bow_writes_in_range c2b_scan_sorted). Qed.
+Print Assumptions C03_build_writes_in_range.
+
+Lemma C03_fact_more_sites : Generated.MoreSites.more_fns = more_fns_classified.
+Proof. vm_compute. reflexivity. Qed.
